@@ -55,6 +55,9 @@ CHECKS = {
  "C14": dict(cat="model_checking", tech="exhaustive enumeration of operation sequences up to a depth, each replayed through the real adapter on an embedded nats-server in lock-step with the reference store (model conformance)", ref="DESIGN §5 C14",
    note="Alphabet of 11 operations (three value shapes, four revision choices) up to depth 4 (quick) / 5 (thorough); expiry sequences with one WaitExpiry up to depth 3/4 (real time, MaxAge 150ms; an expiry the server has not performed in time makes the sequence inconclusive, never an alarm); watchers at every prefix position of all sequences up to depth 3/4, two consumer styles; buckets with History 64 so that the server never drops a superseded revision before delivering it; one writer per bucket.",
    text="Adapter and reference model agree on outcome, revision, value and error text at every step of every sequence; Create succeeds exactly without a live value (also after delete/expiry), Update exactly on the latest revision, revisions strictly increase; every watcher receives exactly the model's event list (initial value, nil marker, each later change once, in order, deletions empty) through one stable channel also when Updates() is called before every receive, and no adapter goroutine survives Stop. This is what binds the store used by all other checks to the real server."),
+ "C11": dict(cat="fault_enumeration", tech="exhaustive enumeration of connection-notification sequences x grace x ownership change x partition x stop, each with deviation-bounded placement of every notification on the real code in virtual time (serial dispatcher as in nats.go); exact virtual-time oracle", ref="DESIGN §5 C11",
+   note="Sequences over {disconnect, reconnect, closed} of length <=3 (quick) / <=4 (thorough); grace 2H+7ms, 3H+1ms and the 5s default (short sequences); d<=1; one monitored instance; the usurper is an outside writer. Interleavings of the dispatcher, the timer goroutine and the verification goroutine inside one virtual instant are only explored in fine-mode windows.",
+   text="With a fault-free store a timer-step demotion happens only at exactly latest-disconnect + grace and only if no reconnect followed; when the grace period of a leading, still disconnected (or closed) instance elapses it is demoted at that instant and OnDemote runs; after a reconnect the instance keeps leadership iff the verification reads (applied by the harness) show its id and token, and OnDemote runs otherwise; no sequence blocks Status(), leaves a stuck goroutine, spins or kills the worker."),
 }
 NA_DEFAULT = "check not built yet in this round (planned in DESIGN.md §9a); not claimed until it runs alarm-free"
 
